@@ -12,6 +12,9 @@ mod gen;
 mod kf;
 mod libcorpus;
 mod io_ops;
+mod abi_ops;
+mod abi_fixed;
+mod gen_abi;
 mod crypto_ops;
 
 fn main() {
@@ -40,6 +43,12 @@ fn main() {
 
 fn dispatch(op: &str, toks: &[&str]) -> String {
     if let Some(r) = schema_ops::dispatch(op, toks) {
+        return r;
+    }
+    if let Some(r) = abi_fixed::dispatch(op, toks) {
+        return r;
+    }
+    if let Some(r) = abi_ops::dispatch(op, toks) {
         return r;
     }
     if op.starts_with("ty_") {
